@@ -191,6 +191,23 @@ func genC13(e *emitter, tier string, seed uint64) {
 		e.run("C13.enc", showItems([][]byte{r.bytes(l), r.bytes(3)}))
 		e.note("enc.len=" + strconv.Itoa(l))
 	}
+	// every explicit-length push form at the lengths where a byte of its length prefix changes, through both tokenisers
+	// (Parse then Unparse must return the bytes; the prefixes are rebuilt from the parsed lengths)
+	for _, form := range []struct {
+		op   byte
+		w    int
+		lens []int
+	}{{0x4c, 1, []int{0, 1, 75, 76, 255}}, {0x4d, 2, []int{0, 1, 255, 256, 257, 65535}}, {0x4e, 4, []int{0, 1, 255, 256, 300, 65535, 65536, 65537, 70000, 131072 + 513}}} {
+		for _, l := range form.lens {
+			sc := []byte{form.op}
+			for k := 0; k < form.w; k++ {
+				sc = append(sc, byte(l>>(8*uint(k))))
+			}
+			sc = append(append(sc, r.bytes(l)...), 0x75, 0x51)
+			e.run("C13.tok", hex.EncodeToString(sc))
+			e.note(fmt.Sprintf("tok.explicit-push.%02x", form.op))
+		}
+	}
 	n := 300
 	if !quick {
 		n = 20000
